@@ -156,6 +156,35 @@ func EncodeHighLevel(msg string, shape SymbolShapeHint, minSize, maxSize *gozxin
 }
 
 func HighLevelEncoder_lookAheadTest(msg []byte, startpos, currentMode int) int {
+	newMode := lookAheadTestIntern(msg, startpos, currentMode)
+	// X12 and EDIFACT have no escape for characters outside their set and encode in
+	// groups of 3 / 4 characters: never choose them when one of the characters of
+	// the next group is not native to them (their encoders would fail on it).
+	if newMode == HighLevelEncoder_X12_ENCODATION {
+		endpos := startpos + 3
+		if endpos > len(msg) {
+			endpos = len(msg)
+		}
+		for i := startpos; i < endpos; i++ {
+			if !isNativeX12(msg[i]) {
+				return HighLevelEncoder_ASCII_ENCODATION
+			}
+		}
+	} else if newMode == HighLevelEncoder_EDIFACT_ENCODATION {
+		endpos := startpos + 4
+		if endpos > len(msg) {
+			endpos = len(msg)
+		}
+		for i := startpos; i < endpos; i++ {
+			if !isNativeEDIFACT(msg[i]) {
+				return HighLevelEncoder_ASCII_ENCODATION
+			}
+		}
+	}
+	return newMode
+}
+
+func lookAheadTestIntern(msg []byte, startpos, currentMode int) int {
 	if startpos >= len(msg) {
 		return currentMode
 	}
